@@ -9,10 +9,18 @@ import (
 	"time"
 
 	"github.com/nspcc-dev/dbft"
+	"github.com/nspcc-dev/dbft/verifharness/sim"
 	"github.com/nspcc-dev/dbft/verifharness/vt"
 	"go.uber.org/zap"
 	"pgregory.net/rapid"
 )
+
+var (
+	mkC06 = func() []*sim.Mon { return []*sim.Mon{sim.MonC06()} }
+	shC06 = Shape{}
+)
+
+func init() { regSafety("C06", mkC06, shC06) }
 
 // c06node is a bare library instance with N validators whose ledger height the test controls.
 type c06node struct {
@@ -243,6 +251,14 @@ func TestC06(t *testing.T) {
 		}
 		e.Case(FPString(fmt.Sprintf("%d/%d/%d", n, ch, v)), n > 1, map[string]int{"drawn": 1}, nil)
 	})
+	// the thresholds in use in every state the adversarial driver reaches (validator sets of 1..7 that may change
+	// between heights, Byzantine identities, view changes): F, M, the primary, and "more than F committed or lost"
+	rapid.Check(t, SafetyProp(e, mkC06, shC06, func(w *sim.World) bool {
+		return w.Stats["c06_exactly_f_committed_or_lost"] > 0
+	}))
+	if t.Failed() {
+		return
+	}
 	// the validator list changes between heights of one instance (it is re-read at every height): the arithmetic in
 	// effect, and everything that is counted per validator, is that of the current list
 	rapid.Check(t, func(rt *rapid.T) {
